@@ -114,13 +114,16 @@ func (d *tDecoder) Decode(b []byte, base unsafe.Pointer, sd *structDesc, maxdept
 		p := unsafe.Add(base, f.Offset) // pointer to the field
 
 		t := f.Type
-		p = d.mallocIfPointer(t, p)
 		if t.FixedSize > 0 {
+			// check before allocating: the pointee of an optional scalar comes from
+			// memory that is not zeroed, it must not be left in the struct unset
 			if len(b)-i < t.FixedSize {
 				return i, io.ErrShortBuffer
 			}
+			p = d.mallocIfPointer(t, p)
 			i += decodeFixedSizeTypes(t.T, b[i:], p)
 		} else {
+			p = d.mallocIfPointer(t, p)
 			var n int
 			var err error
 			if f.NoCopy {
